@@ -124,6 +124,8 @@ inductive Op where
   | stop
   /-- `Progress.advance(id, n)` -/
   | advance (id n : Nat)
+  /-- `console.export_text(clear=…)` / `export_html(clear=…)`: read the record, optionally empty it, under the record lock -/
+  | export (clear : Bool)
 deriving Repr, DecidableEq
 
 inductive Act where
@@ -169,6 +171,10 @@ inductive Act where
   /-- `for stream in (sys.stdout, sys.stderr): if isinstance(stream, FileProxy): stream.flush()` in `stop()`
   (live.py:162-165, progress.py:681-684): the proxies hold no pending text in this model, so nothing is printed -/
   | flushProxies
+  /-- the loop of `export_text` / `export_html` over `self._record_buffer` (console.py:1482-1494, 1548-1587) -/
+  | exportRead
+  /-- `if clear: del self._record_buffer[:]` and the end of the `with self._record_buffer_lock:` body -/
+  | exportEnd (clear : Bool)
 deriving Repr, DecidableEq
 
 /-- When an action of the static code is executed at all. -/
@@ -260,9 +266,10 @@ def code (cfg : Cfg) : Op → List GAct
     match cfg.kind with
     | .progress => [ga (.acq .live), ga (.advance id n), ga (.rel .live)]
     | _ => []
+  | .export clear => [ga (.acq .record), ga .exportRead, ga (.exportEnd clear), ga (.rel .record)]
 
 def Op.applies (k : DKind) : Op → Bool
-  | .print _ | .capture _ | .nested _ _ _ => true
+  | .print _ | .capture _ | .nested _ _ _ | .export _ => true
   | .update _ _ => k == .live
   | .refresh | .start | .stop => k != .none
   | .advance _ _ => k == .progress
@@ -290,6 +297,12 @@ structure Local where
   dirty : Bool := false
   /-- results of the capture blocks, oldest first -/
   captured : List (List Item) := []
+  /-- the record as read by the running export -/
+  xcopy : List Item := []
+  /-- between `exportRead` and `exportEnd` -/
+  xread : Bool := false
+  /-- what the export calls of this thread returned (the recorded pieces), oldest first -/
+  results : List (List Item) := []
   /-- ghost: every piece of output this thread produced, in order -/
   emitted : List Item := []
   /-- an action Python would have answered with an exception (releasing a lock that is not held, …) -/
@@ -302,6 +315,8 @@ structure Shared where
   owner : Lock → Option Nat := fun _ => none
   file : List Write := []
   record : List Item := []
+  /-- ghost: what every *clearing* export returned, in the order of their critical sections (thread, pieces) -/
+  exports : List (Nat × List Item) := []
   /-- `_live_render._shape` -/
   shape : Option (Nat × Nat) := none
   renderable : Frame := []
@@ -383,6 +398,11 @@ def exec (cfg : Cfg) (t : Nat) (sh : Shared) (l : Local) : Act → Option (Share
     | some tk => some ({ sh with tasks := replaceTask sh.tasks { tk with completed := tk.completed + n } }, l)
     | none => some (sh, { l with cont := [ga (.rel .live)], raised := true })   -- KeyError leaves the `with self._lock:` block
   | .flushProxies => some (sh, l)
+  | .exportRead => some (sh, { l with xcopy := sh.record, xread := true })
+  | .exportEnd clear =>
+    some ({ sh with record := if clear then [] else sh.record,
+                    exports := if clear then sh.exports ++ [(t, l.xcopy)] else sh.exports },
+          { l with results := l.results ++ [l.xcopy], xread := false })
 
 /-- One step of thread `t`: load the next operation, skip an action whose guard is off, or perform the
 action.  `none`: the thread is finished or blocked on a lock. -/
